@@ -5,6 +5,7 @@
 package xpush
 
 //@ struct pipe
+//@   never_closed: sendQ
 //@   immutable: p s sendQ closeQ
 //@   guarded_by s.Mutex: closed
 //@
@@ -15,6 +16,8 @@ package xpush
 //@   guarded_by Mutex: closed sendQ noPeerQ sendExpire sendQLen bestEffort failNoPeers readyQ pipes
 //@   immutable: closeQ cv
 //@   invariant cap(sendQ) >= 1
+//@   never_closed: sendQ
+//@   elem_invariant sendQ: elem != nil
 //@   cond cv uses Mutex
 //@
 // ---- generated option contracts (tools/gen_option_contracts.py) ----
